@@ -110,16 +110,16 @@ func ZZSameState(a, b *ZZEnv) bool {
 			}
 		}
 	}
-	if len(a.Bank.Bals) != len(b.Bank.Bals) || len(a.Bank.Supply) != len(b.Bank.Supply) {
+	if len(a.Bank.State().Bals) != len(b.Bank.State().Bals) || len(a.Bank.State().Supply) != len(b.Bank.State().Supply) {
 		return false
 	}
-	for _, x := range a.Bank.Bals {
+	for _, x := range a.Bank.State().Bals {
 		if !b.Bank.Balance(x.Addr, x.Denom).Equal(x.Amt) {
 			return false
 		}
 	}
-	for _, x := range a.Bank.Supply {
-		if !b.Bank.SupplyOf(x.Denom).Equal(x.Amt) {
+	for _, x := range a.Bank.State().Supply {
+		if !b.Bank.State().SupplyOf(x.Denom).Equal(x.Amt) {
 			return false
 		}
 	}
@@ -135,3 +135,5 @@ func (k Keeper) ZZSetOutgoingSequence(ctx sdk.Context, chain types.ChainID, v ui
 func (k Keeper) ZZLastBatchNonce(ctx sdk.Context, chain types.ChainID) uint64 {
 	return k.getLastOutgoingBatchNonce(ctx, chain)
 }
+
+func ZZModuleAddr() sdk.AccAddress { return zzModuleAddr }
